@@ -306,6 +306,11 @@ def run_tlc(module, cfgfile, workers=16, simulate=None, depth=None, timeout=1200
         pass
     if m:
         res.generated, res.states = int(m.group(1)), int(m.group(2))
+    if simulate is not None and not m:
+        mm = re.search(r"The number of states generated: (\d+)", out)
+        if mm:
+            res.generated = int(mm.group(1))
+            res.states = res.generated      # simulation: distinct states are not tracked by TLC
     res.violated = _RE_INV.findall(out) + _RE_PROP.findall(out)
     if "Model checking completed. No error has been found." in out or \
             (simulate is not None and rc == 0 and "Error:" not in out):
